@@ -547,6 +547,9 @@ class ktensor:
         ):
             if len(permutation) == self.ncomponents:
                 permutation = np.asarray(permutation, dtype=int)
+                assert np.array_equal(
+                    np.sort(permutation), np.arange(self.ncomponents)
+                ), "permutation must be a permutation of range(ncomponents)"
                 self.weights = self.weights[permutation]
                 for i in range(self.ndims):
                     self.factor_matrices[i] = self.factor_matrices[i][:, permutation]
